@@ -26,7 +26,7 @@ func runC12(e *Engine, tier Tier) *PropRun {
 			return o.Kind == "dec" || o.Kind == "post" || o.Kind == "inv-init" || o.Kind == "inv-pres" || (o.Kind == "pre" && strings.Contains(o.Fn, "ecover"))
 		},
 		Explanation: "Termination of recovery parsing for every token sequence (with or without an end marker): the main loop of parseWithRecovery proves the variant len(tokens) - currentPos from the contracts 'advance moves the cursor by exactly one', 'a statement that parsed successfully consumed at least one token' (parseStatement, parseWithStatement), the forced advance when a failed statement consumed nothing, and synchronize's own variant and monotonicity. The per-call state contracts (positions cleared, depth/ctx/configuration unchanged on every exit) are proved for the recovery entry points as well.",
-		NotCovered: []string{"errors reported exactly when strict parsing fails (needs the shared statement-level spec function; not built)", "per-segment equality with strict parsing (needs locality of parseStatement, i.e. the grammar)", "each error naming a token of its own statement beyond TokenIdx = position at statement start (by construction, not a proved postcondition)", "termination of the individual parse functions (C02 recursion measure; loops inside them carry no variants yet)"},
+		NotCovered:  []string{"errors reported exactly when strict parsing fails (needs the shared statement-level spec function; not built)", "per-segment equality with strict parsing (needs locality of parseStatement, i.e. the grammar)", "each error naming a token of its own statement beyond TokenIdx = position at statement start (by construction, not a proved postcondition)", "termination of the individual parse functions (C02 recursion measure; loops inside them carry no variants yet)"},
 		Assumptions: []string{"the parse functions called by parseStatement terminate (C02) and satisfy the default parser contract (C08)"},
 	}
 }
